@@ -469,7 +469,8 @@ Theorem C07_skipto_scan_unfold : forall fail f e target ignorer failon s loc0 tm
   if Nat.ltb (length s) tmploc then fail (mkx XParse (Z.of_nat loc0) (MNode (nid (attrs_of e)) 0) (Some (nid (attrs_of e))))
   else match failon with
        | Some fo => can_parse_next fail fo s tmploc false
-                      (fun b => if b then K tmploc else skipto_try fail f e target ignorer failon s loc0 tmploc K)
+                      (fun b => if b then fail (mkx XParse (Z.of_nat loc0) (MNode (nid (attrs_of e)) 0) (Some (nid (attrs_of e))))
+                                else skipto_try fail f e target ignorer failon s loc0 tmploc K)
        | None => skipto_try fail f e target ignorer failon s loc0 tmploc K
        end.
 Proof. exact skipto_scan_unfold. Qed.
